@@ -1,5 +1,9 @@
 (* LoadSafe.v — C12: what acceptance by TimeZoneInfo::Load establishes
-   (sort orders, bounds on the transition times). *)
+   (accept_sorted_lemma: both sort orders; accept_bounds_lemma: non-empty table,
+   every transition time in [-2^59, 2^60]), and totality of the modelled loader
+   on byte lists (load_total_bytes_lemma: no Overflow/OOB/Uninit/Precond/Fuel for
+   any list of bytes; load_total_unrestricted_refuted: the hypothesis is needed).
+   Everything is proved; nothing is admitted. *)
 From CCTZ Require Import Base SrcConstants Cal CivilImpl PosixImpl PosixSpec ZoneLoad ZoneImpl ZoneHist ZoneSpec
   CalProofs WeekdayProofs CivilNorm CivilDiff PosixProofs RuleProofs.
 Require Import Lia ZifyBool.
@@ -958,5 +962,128 @@ Proof.
   match goal with |- context [firstn (Z.to_nat (h_charcnt hdr)) ?b] =>
     set (abbrs := firstn (Z.to_nat (h_charcnt hdr)) b) in * end.
   skip_if. skip_if. skip_if.
-  Show.
-Abort.
+  (* facts about the decoded tables *)
+  assert (TC : 1 <= h_typecnt hdr) by (unfold hdr_ok in HH; lia).
+  assert (Lty : Z.of_nat (length types0) = h_typecnt hdr).
+  { unfold types0, raw. rewrite map_length, chunks_length. lia. }
+  assert (Bidx : Forall (fun i => 0 <= i < h_typecnt hdr) idxs).
+  { apply negb_false_iff in C5. rewrite forallb_forall in C5. apply Forall_forall. intros i Hi.
+    specialize (C5 i Hi).
+    assert (byteP i).
+    { assert (F : Forall byteP idxs) by (unfold idxs; apply Forall_firstn, Forall_skipn; exact Btb).
+      rewrite Forall_forall in F. auto. }
+    unfold byteP in *. lia. }
+  assert (FT : Forall t59 times).
+  { apply orb_false_iff in C4. destruct C4 as [_ C4]. apply negb_false_iff in C4.
+    rewrite forallb_forall in C4. apply Forall_forall. intros t Ht.
+    apply time_in_range_t59. apply C4. exact Ht. }
+  assert (Braw : Forall (Forall byteP) raw).
+  { unfold raw. apply chunks_bytes. apply Forall_skipn, Forall_skipn. exact Btb. }
+  assert (Lab : Z.of_nat (length abbrs) = h_charcnt hdr).
+  { unfold abbrs. rewrite firstn_length, !skipn_length, Ltb. unfold data_length.
+    unfold hdr_ok in HH. apply negb_false_iff in C1. apply Z.eqb_eq in C1. rewrite C1.
+    destruct Htl as [-> | ->].
+    - change (Z.to_nat 4) with 4%nat. lia.
+    - change (Z.to_nat 8) with 8%nat. lia. }
+  assert (Fo : Forall off_ok types0 /\ Forall (abbr_ok abbrs) types0).
+  { apply negb_false_iff in C6. rewrite forallb_forall in C6.
+    split; apply Forall_forall; intros ty Hty; specialize (C6 ty Hty).
+    - unfold off_ok. unfold src_kSecsPerDay in C6. lia.
+    - unfold abbr_ok. rewrite Lab.
+      unfold types0 in Hty. apply in_map_iff in Hty. destruct Hty as (c & <- & Hc).
+      cbn [tt_abbr] in *. rewrite Forall_forall in Braw. pose proof (nthZ_byte c 5 (Braw c Hc)) as Bc.
+      unfold byteP in Bc. lia. }
+  destruct Fo as [Fo Fa].
+  clearbody abbrs raw.
+  match goal with |- exists r, bind ?e _ = OK r =>
+    assert (D : exists d, e = OK d /\ 0 <= d < h_typecnt hdr) end.
+  { destruct (existsb _ idxs && negb (h_timecnt hdr =? 0)); [|exists 0; split; [reflexivity|lia]].
+    destruct (nth_res_ok types0 0 ltac:(lia)) as [t0 E0]. rewrite E0. cbn [bind].
+    assert (I0 : 0 <= nthZ idxs 0 < h_typecnt hdr /\ nthZ idxs 0 <= 255).
+    { unfold nthZ. destruct (nth_in_or_default 0 idxs 0) as [HI|HI].
+      - rewrite Forall_forall in Bidx. split; [exact (Bidx _ HI)|].
+        assert (F : Forall byteP idxs) by (unfold idxs; apply Forall_firstn, Forall_skipn; exact Btb).
+        rewrite Forall_forall in F. specialize (F _ HI). unfold byteP in F. lia.
+      - rewrite HI. lia. }
+    assert (E1 : exists i1, (if tt_isdst t0 then dflt_down 257 types0 (nthZ idxs 0) else OK 0) = OK i1 /\
+                            0 <= i1 <= h_typecnt hdr).
+    { destruct (tt_isdst t0); [|exists 0; split; [reflexivity|lia]].
+      destruct (dflt_down_ok types0 257 (nthZ idxs 0) ltac:(lia)) as (r & Er & Hr).
+      { change (Z.of_nat 257) with 257. lia. }
+      exists r. split; [exact Er|lia]. }
+    destruct E1 as (i1 & E1 & H1). rewrite E1. cbn [bind].
+    destruct (dflt_up_ok types0 (h_typecnt hdr) (eq_sym Lty) (S (length types0)) i1 H1 ltac:(lia))
+      as (i2 & E2 & H2).
+    rewrite E2. cbn [bind]. eexists. split; [reflexivity|].
+    destruct (negb (i2 =? h_typecnt hdr) && (i2 <=? 255)) eqn:EE; lia. }
+  destruct D as (dflt & ED & HD). rewrite ED. cbn [bind]. clear ED.
+  destruct (if negb (ver =? 0) then footer_read src5 else Some []) as [future|]; [|eexists; reflexivity].
+  match goal with |- context [extend_transitions ?t1 _ _ _] => set (trans1 := t1) end.
+  assert (F1 : trans1 <> [] /\ Forall (fun tr => t59 (tr_time tr) /\ 0 <= tr_type tr < h_typecnt hdr) trans1).
+  { unfold trans1.
+    pose proof (combine_both t59 (fun i => 0 <= i < h_typecnt hdr) times idxs FT Bidx) as F0.
+    set (trans0 := map _ (combine times idxs)) in *.
+    assert (B : t59 big_bang).
+    { unfold t59, big_bang, src_big_bang_shift. change (2 ^ 59) with 576460752303423488. lia. }
+    destruct trans0 as [|tr0 r0].
+    - split; [discriminate|]. constructor; [cbn [tr_time tr_type]; auto|constructor].
+    - destruct (0 <=? tr_time tr0).
+      + split; [discriminate|]. constructor; [cbn [tr_time tr_type]; auto|exact F0].
+      + split; [discriminate|]. exact F0. }
+  clearbody trans1. destruct F1 as [N1 F1].
+  assert (F1' : Forall (tr_ok (length types0)) trans1).
+  { eapply Forall_impl; [|exact F1]. intros tr [T1 T2]. unfold tr_ok, t59 in *.
+    change (2 ^ 59) with 576460752303423488 in *. change (2 ^ 60) with 1152921504606846976. lia. }
+  assert (Hl : forall last, last_opt trans1 = Some last -> t59 (tr_time last)).
+  { intros last HL. apply last_opt_In in HL. rewrite Forall_forall in F1. exact (proj1 (F1 _ HL)). }
+  destruct (extend_total trans1 types0 abbrs future N1 F1' Hl Fo Fa) as [ext EX].
+  rewrite EX. cbn [bind].
+  destruct ext as [[[[[trans2 types1] abbrs1] extended] ly]|]; [|eexists; reflexivity].
+  destruct (extend_inv _ _ _ _ _ _ _ _ _ EX Fo Hl) as (gen & EG & FG & L1 & Fo1 & Fa1).
+  specialize (Fa1 Fa).
+  assert (F2 : Forall (tr_ok (length types1)) trans2).
+  { subst trans2. apply Forall_app. split.
+    - eapply Forall_impl; [|exact F1']. unfold tr_ok. intros tr HH'. lia.
+    - eapply Forall_impl; [|exact FG]. intros tr [(last & HL & T1) [T2 T3]].
+      specialize (Hl _ HL). unfold t59 in Hl. unfold tr_ok. lia. }
+  destruct (last_opt_nonempty trans2) as [last EL].
+  { subst trans2. destruct trans1; [congruence|discriminate]. }
+  rewrite EL. cbn [bind].
+  destruct (nth_res_ok types1 dflt ltac:(lia)) as [dtt Edtt]. rewrite Edtt. cbn [bind].
+  destruct (nth_res_inv _ _ _ Edtt) as [Ind _].
+  match goal with |- context [civil_pass _ _ _ None ?t3 []] => set (trans3 := t3) end.
+  assert (F3 : Forall (tr_ok (length types1)) trans3).
+  { unfold trans3. destruct (tr_time last <? 0); [|exact F2].
+    apply Forall_app. split; [exact F2|]. constructor; [|constructor].
+    unfold tr_ok. cbn [tr_time tr_type]. unfold src_second_half_sentinel.
+    apply last_opt_In in EL. rewrite Forall_forall in F2. pose proof (proj2 (F2 _ EL)).
+    change (2 ^ 59) with 576460752303423488. change (2 ^ 60) with 1152921504606846976. lia. }
+  clearbody trans3.
+  destruct (civil_pass_total abbrs1 types1 Fo1 Fa1 trans3 dtt None []) as [cp ECP]; auto.
+  { rewrite Forall_forall in Fo1. auto. }
+  { rewrite Forall_forall in Fa1. auto. }
+  rewrite ECP. cbn [bind].
+  destruct cp as [trans4|]; [|eexists; reflexivity].
+  destruct (set_civil_limits_total abbrs1 types1 Fo1 Fa1) as [types2 ESL].
+  rewrite ESL. cbn [bind]. eexists; reflexivity.
+Qed.
+
+(* The hypothesis [all_bytes] cannot be dropped: [bs : list Z] is otherwise free to
+   contain a "byte" -1, which passes the `type_index >= typecnt` test and then
+   indexes transition_types_[-1].  (A C++ unsigned char cannot take that value.) *)
+Definition not_bytes_witness : list Z :=
+  [84;90;105;102;0] ++ repeat 0 15 ++ [0;0;0;0] ++ [0;0;0;0] ++ [0;0;0;0]
+  ++ [0;0;0;1] ++ [0;0;0;1] ++ [0;0;0;1]
+  ++ [0;0;0;0] ++ [-1] ++ [0;0;0;0;0;0] ++ [0].
+
+Lemma load_total_unrestricted_refuted : ~ (forall bs, exists r, load_bytes bs = OK r).
+Proof.
+  intros H. destruct (H not_bytes_witness) as [r E].
+  assert (K : load_bytes not_bytes_witness = Err OOB) by (vm_compute; reflexivity).
+  rewrite K in E. discriminate E.
+Qed.
+
+Print Assumptions accept_sorted_lemma.
+Print Assumptions accept_bounds_lemma.
+Print Assumptions load_total_bytes_lemma.
+Print Assumptions load_total_unrestricted_refuted.
